@@ -56,6 +56,14 @@ def main(tier):
     if chk.violations:
         return chk.finish()
     lib.build_all()
+    # the instrument itself: the interposer's view of the path-mutating calls must equal strace's (ptrace) view of the same run
+    xc = {}
+    for scn in (dops.Scn("remove"), dops.Scn("hard"), dops.Scn("soft"), dops.Scn("reflink"), dops.Scn("move"), dops.Scn("move", tdev="other")):
+        ok, detail = dops.strace_crosscheck(scn)
+        xc[f"{scn.op}/{scn.tdev}"] = detail if ok is not None else "strace unavailable: " + str(detail)
+        if ok is False:
+            raise lib.ToolError(f"the LD_PRELOAD interposer and strace disagree on the calls of `{scn.op}`: {detail}")
+    chk.cov["interposer_vs_strace"] = xc
     scns = []
     for op in dops.OPS:
         scns.append(dops.Scn(op, threads=1))
